@@ -215,3 +215,20 @@ Definition seg_ext_ok (q : list bytes) (g : xseg) : Prop :=
 Definition end_ack_of (f : frame) : list (N * N) :=
   match f with FMsg (MXferAck fl id len) => if has_end fl then [(id, len)] else [] | _ => [] end.
 Definition end_acks (l : list frame) : list (N * N) := flat_map end_ack_of l.
+
+(** ** Reports about transfers that never started
+
+    The "send finished" signal that reports a queued transfer dropped because
+    the session is terminating or the connection closed. *)
+Definition term_ev (it : N * bytes) : event :=
+  ESig SigSendFinished [PStrNum (fst it); PInt 0; PStr RES_TERMINATING].
+Definition started_ev (id len : N) : event := ESig SigSendStarted [PStrNum id; PInt len].
+
+(** The events of a trace that announce that a transfer started, or was
+    finished with the 'terminating' result. *)
+Definition note (e : event) : bool :=
+  match e with
+  | ESig SigSendStarted _ => true
+  | ESig SigSendFinished [_; _; PStr r] => r =? RES_TERMINATING
+  | _ => false
+  end.
